@@ -1150,12 +1150,10 @@ def run(rep):
 
     # ---------------- (5b) thorough: independent re-check of the compiled proofs
     if not quick and cq["ok"]:
-        with common.Lock("coq"):
-            rc, o, e = common.sh(["coqchk", "-silent", "-o", "-Q", ".", "Cb", "Cb.C02.Properties_C02"], cwd=common.COQ, timeout=1500)
-        summ = (o + e)[-700:]
-        rep.coverage["coqchk"] = {"rc": rc, "axioms": "none" if "Axioms: <none>" in summ else summ}
-        if rc != 0:
-            rep.violation("coqchk", {"log": summ}, "coqchk rejects the compiled C02 development", True)
+        okc, summ = common.coqchk(PROP)
+        rep.coverage["coqchk"] = {"ok": okc, "summary": summ[:600]}
+        if not okc:
+            rep.violation("coqchk", {"log": summ[-2000:]}, "coqchk rejects the compiled C02 development", True)
 
     # ---------------- (6) known findings
     for f in common.known_findings(PROP):
